@@ -740,4 +740,91 @@ theorem realloc_inv (cfg : Cfg) (ok : CfgOK cfg) (h : Heap) (ptr : Option Nat) (
             cases hr
             exact free_inv cfg _ _ r2 him hf2
 
+
+theorem HInv.init (cfg : Cfg) : HInv cfg Heap.init :=
+  ⟨fun x => by simp [Heap.init], by simp [Heap.init], by simp [Heap.init], by simp [Heap.init],
+    by simp [Heap.init], by simp [Heap.init], fun _ => by simp [Heap.init]⟩
+
+theorem step_inv (cfg : Cfg) (ok : CfgOK cfg) (h : Heap) (op : Op) (r : Res) (hi : HInv cfg h)
+    (hs : step cfg h op = some r) : HInv cfg r.h := by
+  cases op with
+  | malloc n => simp only [step] at hs; cases hs; exact malloc_inv cfg ok h n hi
+  | free p =>
+    cases p with
+    | none => simp only [step] at hs; cases hs; exact hi
+    | some p => exact free_inv cfg h p r hi hs
+  | realloc p n => exact realloc_inv cfg ok h p n r hi hs
+
+theorem run_inv (cfg : Cfg) (ok : CfgOK cfg) (ops : List Op) (h h' : Heap) (hi : HInv cfg h)
+    (hr : run cfg h ops = some h') : HInv cfg h' := by
+  induction ops generalizing h with
+  | nil => simp only [run] at hr; cases hr; exact hi
+  | cons op ops ih =>
+    simp only [run] at hr
+    split at hr
+    · cases hr
+    · rename_i r hs
+      exact ih r.h (step_inv cfg ok h op r hi hs) hr
+
+theorem exists_of_cnt_pos {x : Nat} {l : List Chunk} (h : 1 ≤ cnt x l) : ∃ c ∈ l, hasN x c = 1 := by
+  induction l with
+  | nil => simp at h
+  | cons d l ih =>
+    by_cases hd : hasN x d = 1
+    · exact ⟨d, by simp, hd⟩
+    · have := hasN_le_one x d
+      simp only [cnt_cons] at h
+      obtain ⟨c, hc, hx⟩ := ih (by omega)
+      exact ⟨c, List.mem_cons_of_mem _ hc, hx⟩
+
+/-- the two chunks do not share a byte -/
+def Disj (c d : Chunk) : Prop := c.1 + 8 + c.2 ≤ d.1 ∨ d.1 + 8 + d.2 ≤ c.1
+
+theorem pairwise_disj_of_cnt {l : List Chunk} (h : ∀ x, cnt x l ≤ 1) : l.Pairwise Disj := by
+  induction l with
+  | nil => simp
+  | cons c t ih =>
+    rw [List.pairwise_cons]
+    refine ⟨fun d hd => ?_, ih fun x => ?_⟩
+    · apply disj_of_hasN
+      intro x
+      have := h x; have := hasN_le_cnt (x := x) hd
+      simp only [cnt_cons] at *; omega
+    · have := h x; simp only [cnt_cons] at this; omega
+
+theorem HInv.no_free_of_no_live {cfg h} (hi : HInv cfg h) (hl : h.live = []) : h.flp = [] ∧ h.brk = 0 := by
+  have hflp : h.flp = [] := by
+    cases hf : h.flp with
+    | nil => rfl
+    | cons f rest =>
+      exfalso
+      have hfm : f ∈ h.flp := by rw [hf]; simp
+      have h1 := hi.fin_le_brk (Or.inl hfm)
+      have h2 := hi.notTop f hfm
+      -- the byte right behind `f` is below the break, so some chunk holds it
+      have ht := hi.tile (f.1 + 8 + f.2)
+      rw [hl] at ht
+      simp only [cnt_nil, Nat.add_zero] at ht
+      rw [if_pos (by omega)] at ht
+      obtain ⟨g, hg, hx⟩ := exists_of_cnt_pos (by omega : 1 ≤ cnt (f.1 + 8 + f.2) h.flp)
+      have hgx : g.1 ≤ f.1 + 8 + f.2 ∧ f.1 + 8 + f.2 < g.1 + 8 + g.2 := by
+        unfold hasN at hx; split at hx
+        · assumption
+        · cases hx
+      -- `g` is a free chunk that starts at or before the end of `f` and ends behind it
+      have hs := hi.sorted
+      obtain ⟨l1, l2, hsplit⟩ := List.append_of_mem hfm
+      rw [hsplit, List.pairwise_append, List.pairwise_cons] at hs
+      rw [hsplit] at hg
+      rcases List.mem_append.1 hg with hg | hg
+      · have := hs.2.2 g hg f (by simp); unfold Below at this; omega
+      · rcases List.mem_cons.1 hg with rfl | hg
+        · omega
+        · have := hs.2.1.1 g hg; unfold Below at this; omega
+  refine ⟨hflp, ?_⟩
+  have := hi.tile 0
+  rw [hl, hflp] at this
+  simp at this
+  omega
+
 end Igris.C10
